@@ -56,6 +56,21 @@ def variants(w):
 # independent oracle: regex / line based reading of the exported files (NOT the Coq model)
 # ----------------------------------------------------------------------------------------------
 ID_RE = re.compile(r"^[A-Za-z](?:_?[A-Za-z0-9])*$")
+# names the exported code may use without declaring them (IEEE packages + gatery's helper package); written
+# independently of the Coq checker's list
+ORACLE_PKG = set("""std_logic std_ulogic std_logic_vector std_ulogic_vector unsigned signed bit bit_vector boolean integer
+natural positive true false resize to_integer to_unsigned to_signed rising_edge falling_edge shift_left shift_right
+rotate_left rotate_right to_bit to_bitvector to_stdlogicvector to_stdulogicvector bool2stdlogic stdlogic2bool
+portmap_to_stdlogic portmap_to_stdulogic portmap_to_bit portmap_to_stdlogicvector portmap_to_unsigned work ieee
+error warning note failure""".split())
+
+
+def expr_ids(l):
+    """identifier tokens of a statement line that denote objects/functions: string and character literals removed,
+    selected-name suffixes (after .) and attribute names (after ') skipped"""
+    l = re.sub(r'"[^"]*"', " ", l)
+    l = re.sub(r"'.'", " ", l)
+    return [m.group(1) for m in re.finditer(r"(?<![A-Za-z0-9_.'])([A-Za-z]\w*)", l)]
 
 
 def strip_comments(text):
@@ -90,6 +105,7 @@ def oracle_file(text, reserved):
     lib = ["library", "", []]
     stack.append(lib)
     in_ports = False
+    in_map = False
     for raw in lines:
         l = raw.strip()
         if not l:
@@ -158,6 +174,7 @@ def oracle_file(text, reserved):
         m = re.match(r"(?i)^(\S+)\s*:\s*(ENTITY\s+\S+|\S+)\s+(PORT|GENERIC)\s+MAP\b", l)
         if m:
             declare(m.group(1), "instance label")
+            in_map = l.rstrip().endswith("(")
             continue
         # uses that must resolve to a declaration of an open region (independent, deliberately small rule set):
         # assignment targets, sensitivity lists, rising_edge/falling_edge arguments, `IF (name = '.')` tests
@@ -172,6 +189,29 @@ def oracle_file(text, reserved):
         for u in used:
             vis = {n.lower() for reg in stack for n in reg[2]}
             if u.lower() not in vis:
+                findings.append(dict(kind="undeclared", name=u, region=f"{stack[-1][0]} {stack[-1][1]}", what=l[:100]))
+        # every identifier of a statement (right-hand sides, conditions, selectors, index expressions, port-map
+        # actuals) must be a reserved word, a name of the known packages, or declared in an open region
+        if re.match(r"(?i)^BEGIN$", l):
+            stack[-1].append("begun") if "begun" not in stack[-1] else None
+            continue
+        body_line = None
+        if in_map:
+            if l.startswith(")"):
+                in_map = False
+            else:
+                body_line = l.split("=>", 1)[1] if "=>" in l else l
+        elif "begun" in stack[-1] and stack[-1][0] in ("architecture", "process", "block") and not re.match(r"(?i)^END\b", l):
+            body_line = re.sub(r"^[A-Za-z]\w*\s*:(?!=)", " ", l)     # drop a leading label
+            if re.search(r"(?i)\b(PORT|GENERIC)\s+MAP\s*\($", l):
+                in_map = True
+                body_line = None
+        if body_line is not None:
+            vis = {n.lower() for reg in stack for n in reg[2]}
+            for u in expr_ids(body_line):
+                ul = u.lower()
+                if ul in reserved or ul in ORACLE_PKG or ul in vis:
+                    continue
                 findings.append(dict(kind="undeclared", name=u, region=f"{stack[-1][0]} {stack[-1][1]}", what=l[:100]))
         m = re.match(r"(?i)^END\s*(\S*)\s*(\S*)\s*;", l)
         if m:
@@ -312,6 +352,27 @@ def gen_design_cases(rng, reserved, tier):
                                 if rng.random() < 0.7:
                                     kv[r] = rng.choice(cnames + rng.sample(pool, 3))
                         cases.append(dict(id=f"ckr{k}", mode="SEP"[k % 3], kv=kv, cls=f"clkrst-clk_{cl}-rst_{rl[:5]}", expect="ok"))
+                        k += 1
+    # clocks and resets used as logic SIGNALS (clkSignal / rstSignal / reset): root clocks, pin-sharing derived clocks
+    # (falling edge / other register attributes), derived clocks with own pins, logic-driven clocks; root and sub-entity
+    snames = ["clk", "Clk", "clk_2", "CLK_2", "reset", "reset_2", "clk_g", "clk_gated", "s_clk_gated", "en", "sub", "sub0",
+              "top", "q", "default_comb", "rst_or_en"]
+    k = 0
+    for ck in ("root", "fall", "rattr", "own", "logic"):
+        for use in ("clk", "rst", "both", "rstn"):
+            for sub in ("0", "1"):
+                for gt in ("0", "1"):
+                    nrep = 2 if tier == "quick" else 6
+                    if tier == "quick" and ck in ("root", "own", "logic") and use in ("rst", "rstn"):
+                        nrep = 1
+                    for rep_ in range(nrep):
+                        kv = {"shape": "clksig", "ck": ck, "use": use, "sub": sub, "gt": gt, "nm": str((rep_ + k) % 2)}
+                        if rep_ > 0:
+                            for r in ["clk", "rst", "clk2", "rst2", "clk3", "rst3", "pi0", "pi1", "pi2", "pi5", "po0", "po1",
+                                      "po2", "sg0", "sg1", "rg0", "ent0", "top"]:
+                                if rng.random() < 0.7:
+                                    kv[r] = rng.choice(snames + rng.sample(pool, 3))
+                        cases.append(dict(id=f"cks{k}", mode="SEP"[k % 3], kv=kv, cls=f"clksig-{ck}-{use}", expect="ok"))
                         k += 1
     # tiny cases with predicted port names (tie B)
     ntiny = 30 if tier == "quick" else 200
@@ -620,7 +681,7 @@ def main():
                 dl = [d.lower() for d in declared]
                 changed = 0
                 for role, name in c["kv"].items():
-                    if role in ("shape", "ipc", "lv", "nm", "cl", "rl", "dv", "sub"):
+                    if role in ("shape", "ipc", "lv", "nm", "cl", "rl", "dv", "sub", "ck", "use", "gt"):
                         continue
                     nl = name.lower()
                     hit = [d for d in dl if nl in d]
@@ -761,6 +822,33 @@ def main():
     rep.cov["checker_totals"] = stats_sum
     rep.cov["suspicious_hiding"] = sorted(hides)[:40]
     rep.cov["shadowing_inner_hides_outer"] = sorted(shadows)[:40]
+    rep.cov["declared_before_use_positions"] = dict(
+        verified_checker_scanner=[
+            "assignment targets (signal <= and variable :=) and their index expressions",
+            "EVERY identifier token on the right-hand side of signal and variable assignments (any nesting, function "
+            "arguments, type conversions, concatenations, aggregates)",
+            "IF / ELSIF conditions, CASE selectors, WHEN choices, ASSERT / REPORT / RETURN expressions",
+            "explicit sensitivity lists; clock and reset names in rising_edge/falling_edge/'event tests (they are conditions)",
+            "port-map actuals (all identifiers of the actual expression); port-map formals against the port list of the "
+            "instantiated entity when that entity is part of the export",
+            "type indications and initial values of SIGNAL/CONSTANT/VARIABLE declarations, TYPE/SUBTYPE definitions, "
+            "attribute specifications (attribute name and decorated object)",
+            "an identifier resolves if it is declared in an open region (innermost first), exported by a package of the "
+            "export, or in the fixed list `predefined` (IEEE std_logic_1164/numeric_std names, library names); an object "
+            "name that resolves to a process/block/instance LABEL is an error",
+        ],
+        not_covered=[
+            "selected-name suffixes (after '.') and attribute designators (after ')",
+            "generic maps (skipped), port-map formals of entities outside the export, function bodies of GateryHelperPackage",
+            "overload / type resolution: a name that is declared but of the wrong kind is only detected for assignment "
+            "targets (class vs operator) and labels",
+        ],
+        python_oracle=[
+            "assignment targets, explicit sensitivity lists, rising_edge/falling_edge arguments, IF (name = '.') tests",
+            "every identifier token of every statement line of architecture / process / block statement parts and of "
+            "port-map actuals (string and character literals removed, '.' suffixes and attribute names skipped): must be a "
+            "reserved word, in the oracle's own package-name list, or declared in an open region",
+        ])
     rep.cov["translator"] = tout.strip()
     rep.cov["broken"] = broken
     rep.cov["wall_s_total"] = round(time.time() - t0, 1)
